@@ -204,6 +204,9 @@ type sessReq struct {
 	Label   string `json:"label,omitempty"`   // alphabet entry name (for samples / signatures)
 	RawType uint8  `json:"rawtype,omitempty"` // kind "raw": message type of a response-type / unsupported message
 	FailAt  int    `json:"failat,omitempty"`  // UP4: the (FailAt-1)-th Write issued by this request fails (0 = none)
+	// SameSeq: the request carries the sequence number of the previous request of its connection (which was answered: the
+	// number is free again, e.g. after the 24-bit counter of a busy peer wrapped). It is a new request, not a retransmission.
+	SameSeq bool `json:"sameseq,omitempty"`
 }
 
 type stepCtx struct {
@@ -288,7 +291,9 @@ func (s *sessSys) exec(r *sessReq) *stepCtx {
 	c := s.in.conns[r.Conn]
 	ctx := &stepCtx{sys: s, req: r}
 	req := r.sReq
-	if req.Seq == 0 {
+	if req.Seq == 0 && r.SameSeq && c.seq > 1 {
+		req.Seq = c.seq - 1
+	} else if req.Seq == 0 {
 		req.Seq = c.seq
 		c.seq++
 	}
